@@ -245,6 +245,8 @@ def gen_ops(rng, sc, length, kinds):
                 else:
                     args = rng.choice([(1,), (4,), (2, 3)])           # int[0]: AttributeError
                     args2 = rng.choice([((7, 8),), ((3, 4), 1)])
+            if rng.random() < 0.25:
+                args = ()      # the first call forgets the required DAG argument: refused as invalid after some nodes may have run
             ops.append(dict(op="rerun", inst=inst, T=rng.choice([None, T]), args=args, args2=args2))
         elif k == "config":
             ops.append(dict(op="config", inst=inst, node=rng.randrange(n), prio=rng.choice([3, -2, 8])))
@@ -332,6 +334,8 @@ def run_history(sc, ops):
                 return ("FAIL", "Boom13")
             if isinstance(e, TawaziUsageError):
                 return ("REFUSED",)
+            if type(e).__name__ == "TawaziArgumentException" and len(op.get("args", (0,))) == 0:
+                return ("FAIL", "MissingArgument")     # a call without the required DAG argument: invalid arguments
             dict_arg = any(isinstance(a_, dict) for key_ in ("args", "args2") for a_ in (op.get(key_) or ()))
             if any(s_.get("deep") for s_ in sc["specs"]) and (
                     isinstance(e, (TypeError, AttributeError, IndexError)) or (isinstance(e, KeyError) and dict_arg)):
@@ -421,8 +425,13 @@ def run_history(sc, ops):
             ex = d.executor(target_nodes=None if T is None else ids(T))
             rec["out"] = attempt(lambda: ex(*op["args"]))
             rec["entered"], rec["dups"] = counters_delta(before, tag, n)
-            rec["line"] = len(lines); lines.append("O %d call %d %s %d %s" % (inst, len(sel), " ".join(map(str, sel)), len(op["args"]),
-                                                   " ".join(enc(a) for a in op["args"])))
+            if len(op["args"]) == 0 and rec["out"][0] != "OK":
+                # invalid arguments (the selection needs the argument): the call raised; it must leave the instance as it
+                # was (no model line: a no-op)
+                pass
+            else:
+                rec["line"] = len(lines); lines.append("O %d call %d %s %d %s" % (inst, len(sel), " ".join(map(str, sel)), len(op["args"]),
+                                                       " ".join(enc(a) for a in op["args"])))
             records.append(rec)
             # second run of the same executor object
             before2 = dict(COUNTS)
